@@ -153,7 +153,14 @@ def main(argv=None):
     ap.add_argument("--repo", default=os.environ.get("VP_REPO", "/repo"))
     ap.add_argument("--no-evidence", action="store_true")
     ap.add_argument("--rundir", default=None, help="scratch dir for shard outputs and witnesses (default /verif/.run)")
+    ap.add_argument("--backend", default="native", choices=["native", "standin"],
+                    help="'standin': run with the pure-Python pysecp256k1 stand-in so that the libsecp arms execute; OBSERVATION ONLY "
+                         "(no evidence, no VIOLATION lines, exit 0)")
     a = ap.parse_args(argv)
+    if a.backend == "standin":
+        os.environ["VP_BACKEND"] = "standin"
+        a.no_evidence = True
+        a.rundir = a.rundir or os.path.join(RUN, "standin")
     rundir = os.path.abspath(a.rundir) if a.rundir else RUN
     os.makedirs(rundir, exist_ok=True)
     prop = a.prop.upper()
@@ -265,6 +272,18 @@ def main(argv=None):
 
     summary = "%s tier=%s seed=%d shards=%d evaluations=%d distinct=%d cells=%d wall=%.1fs" % (
         prop, tier, a.seed, nshards, evaluations, len(digests), len(cells), wall)
+    if a.backend == "standin":
+        shown = set()
+        for v in new_viol:
+            if v["mech"] in shown:
+                continue
+            shown.add(v["mech"])
+            print("OBSERVATION(libsecp256k1 stand-in configuration, not a verdict) property=%s mech=%s case=%s expected=%s observed=%s" % (
+                prop, v["mech"], json.dumps(v["case"])[:300], json.dumps(v["expected"])[:160], json.dumps(v["observed"])[:200]))
+        for pr in problems[:5]:
+            print("NOTE(stand-in) " + pr.replace("\n", " ")[:300])
+        print("STANDIN-DONE %s disagreements=%d backend=%s" % (summary, len(new_viol), extra.get("backend")))
+        sys.exit(0)
     if new_viol:
         for ln in lines:
             print(ln)
